@@ -198,7 +198,13 @@ func (its *TransactionDatatype) DoTransaction(
 			// do nothing
 		}
 	}()
-	if err := funcWithCloneDatatype(txCtx); err != nil {
+	runCtx := txCtx
+	if runCtx == nil {
+		// called inside the transaction that owns the lock (e.g. a multi-operation Patch in a
+		// transaction body): the operations join that transaction instead of waiting for its lock
+		runCtx = currentTxCtx
+	}
+	if err := funcWithCloneDatatype(runCtx); err != nil {
 		its.SetTransactionFail()
 		return errors.DatatypeTransaction.New(its.L(), err.Error())
 	}
